@@ -64,6 +64,20 @@ def _two_trees_worker(seed):
             bounds = np.array([(-5.0, 5.0)] * 2)
             order = [DemeA, DemeB] if rng.random() < 0.5 else [DemeB, DemeA]
             lvl_custom = int(rng.integers(0, 2))
+            # a tree whose levels 0 and 1 are ONE level-config object (a user reusing a configuration), level 2 CMA-ES
+            from pyhms.config import CMALevelConfig
+            from pyhms.demes.cma_deme import CMADeme
+
+            prob0 = FunctionProblem(lambda x: float(np.sum(np.asarray(x) ** 2)), maximize=False, bounds=bounds)
+            shared_cfg = EALevelConfig(ea_class=SEA, generations=1, problem=prob0, pop_size=6, lsc=MetaepochLimit(3), mutation_std=0.5, sample_std_dev=0.5)
+            leaf_cfg = CMALevelConfig(generations=2, problem=prob0, sigma0=0.3, lsc=DontStop())
+            tree3 = T.DemeTree(TreeConfig([shared_cfg, shared_cfg, leaf_cfg], MetaepochLimit(5), get_simple_sprout(0.2, level_limit=3), options={"random_seed": int(rng.integers(1, 10**6))}))
+            tree3.run()
+            for lv, demes in enumerate(tree3.levels):
+                for d in demes:
+                    want = CMADeme if lv == 2 else EADeme
+                    if type(d) is not want and not found:
+                        found.append(f"levels 0 and 1 share one level-config object, level 2 is CMA-ES: deme {d.id} registered at level {lv + 1} (reports level {d.level}) is a {type(d).__name__}, configured {want.__name__}")
             for k, cls in enumerate(order + [order[0]]):
                 prob = FunctionProblem(lambda x: float(np.sum(np.asarray(x) ** 2)), maximize=False, bounds=bounds)
                 mk = lambda C: C(ea_class=SEA, generations=1, problem=prob, pop_size=6, lsc=DontStop(), mutation_std=0.5, sample_std_dev=0.5)  # noqa: E731
